@@ -27,6 +27,7 @@ macro_rules! int_to_bvf {
         let sig = Big::lo(x as u128).sig();
         w!(sig == if w < cap { w } else { cap }, "largest value that still fits (all of the integer or exactly the capacity)");
         w!(if w > cap { sig == cap + 1 } else { x == 0 }, "one significant bit more than the capacity (wide integers), zero otherwise");
+        let _sep = nd::bool(); // keeps counterexample traces distinct from witness traces (playback dedupe)
         let by_val = <$T>::try_from(x);
         let by_ref = <$T>::try_from(&x);
         assert!(by_val.is_ok() == (sig <= cap), "C11: try_from(int) fails iff the value has more significant bits than the capacity");
@@ -94,6 +95,7 @@ macro_rules! h_int_to_bvd {
             w!(x == 0, "zero");
             w!(x == <$I>::MAX, "all ones");
             w!(x != 0 && (x as u128) < 1u128 << (w - 1) && x & 1 == 0, "top and bottom bit clear, non-zero");
+            let _sep = nd::bool(); // keeps counterexample traces distinct from witness traces (playback dedupe)
             let r = ($conv)(x).into_raw();
             assert!(r.len == w, "C11: Bvd::from(int) length differs from the integer width");
             assert!(r.v == Big::lo(x as u128), "C11: Bvd::from(int) storage differs from the integer");
@@ -122,6 +124,7 @@ macro_rules! int_to_bv {
         let w = <$I>::BITS as usize;
         w!(x == <$I>::MAX, "all ones");
         w!(x == 0, "zero");
+        let _sep = nd::bool(); // keeps counterexample traces distinct from witness traces (playback dedupe)
         let r = Bv::from(x).into_raw();
         assert!(r.len == w && r.v == Big::lo(x as u128), "C11: Bv::from(int) is not (width, value)");
         assert!(r.len <= r.cap, "C11: len > capacity");
@@ -195,6 +198,7 @@ macro_rules! h_slice_to_bvf {
             w!(arr[0] == <$J>::MAX && arr[1] == 0, "element 0 all ones, element 1 zero");
             w!(arr[0] == 0 && arr[1] != 0, "element 0 zero, element 1 non-zero");
             w!(arr[0] != arr[1] && arr[1] != arr[2] && arr[2] != arr[3], "distinct neighbours");
+            let _sep = nd::bool(); // keeps counterexample traces distinct from witness traces (playback dedupe)
             slice_to_bvf!($T, $J, arr, 0);
             slice_to_bvf!($T, $J, arr, 1);
             slice_to_bvf!($T, $J, arr, 2);
@@ -230,6 +234,7 @@ macro_rules! h_slice_to_heap {
             w!($count == 0 || arr[0] == <$J>::MAX, "empty slice, or element 0 all ones");
             w!($count < 2 || (arr[0] == 0 && arr[1] != 0), "fewer than two elements, or element 0 zero and element 1 non-zero");
             w!($count < 3 || (arr[2] != 0 && arr[1] == 0), "fewer than three elements, or element 2 non-zero above a zero element 1");
+            let _sep = nd::bool(); // keeps counterexample traces distinct from witness traces (playback dedupe)
             let s: &[$J] = &arr[..$count];
             let want = concat($count, w, arr[0] as u128, arr[1] as u128, arr[2] as u128, arr[3] as u128);
             let r = <$T>::from(s).into_raw();
@@ -274,6 +279,7 @@ macro_rules! vec_to_int_ref {
         let sig = $rv.v.sig();
         w!(sig == if w < $rv.cap { w } else { $rv.cap }, "value as wide as the integer (or as the whole vector if that is narrower)");
         w!(if $rv.cap > w { sig == w + 1 } else { $rv.len == $rv.cap }, "one significant bit too many (or full-length vector if it cannot be wider)");
+        let _sep = nd::bool(); // keeps counterexample traces distinct from witness traces (playback dedupe)
         match <$I>::try_from(&$v) {
             Ok(x) => {
                 assert!(sig <= w, "C11: try_from(&vector) succeeded although the value does not fit the integer");
@@ -371,6 +377,7 @@ h_heap_to_ints_ref!(c11_t_bvdyn1_to_ints, 4, bvdyn1(anylen(64)));
 harness!(c11_q_bvd0_to_ints, 3, {
     let (v, rv) = bvd0(0);
     w!(rv.len == 0 && rv.cap == 0, "empty vector without storage");
+    let _sep = nd::bool(); // keeps counterexample traces distinct from witness traces (playback dedupe)
     assert!(u8::try_from(&v) == Ok(0), "C11: u8::try_from(&empty) is not Ok(0)");
     assert!(u16::try_from(&v) == Ok(0), "C11: u16::try_from(&empty) is not Ok(0)");
     assert!(u32::try_from(&v) == Ok(0), "C11: u32::try_from(&empty) is not Ok(0)");
@@ -388,6 +395,7 @@ macro_rules! h_heap_to_int_val {
             w!(rv.len == 0, "empty vector");
             w!(rv.v.sig() == w, "value needs exactly the integer's width");
             w!(rv.v.sig() == w + 1 || rv.len == rv.cap, "one significant bit too many, or full-length vector");
+            let _sep = nd::bool(); // keeps counterexample traces distinct from witness traces (playback dedupe)
             vec_to_int_val!(v, rv, $I);
         });
     };
@@ -423,6 +431,7 @@ macro_rules! bit_int {
         let x: $I = nd::$I();
         w!(x > 1, "integer other than 0 and 1");
         w!(x == 0, "zero");
+        let _sep = nd::bool(); // keeps counterexample traces distinct from witness traces (playback dedupe)
         let b = Bit::from(x);
         assert!((b == Bit::Zero) == (x == 0) && (b == Bit::One) == (x != 0), "C11: Bit::from(int) is not Zero for 0 and One otherwise");
         assert!(<$I>::from(Bit::Zero) == 0 && <$I>::from(Bit::One) == 1, "C11: int::from(Bit) is not 0 / 1");
@@ -441,6 +450,7 @@ harness!(c11_q_bit_conversions, 2, {
     let t = nd::bool();
     w!(t, "true");
     w!(!t, "false");
+    let _sep = nd::bool(); // keeps counterexample traces distinct from witness traces (playback dedupe)
     assert!((Bit::from(t) == Bit::One) == t && (Bit::from(t) == Bit::Zero) == !t, "C11: Bit::from(bool) is not One for true and Zero for false");
     assert!(bool::from(Bit::One) && !bool::from(Bit::Zero), "C11: bool::from(Bit) is not true / false");
     assert!(bool::from(Bit::from(t)) == t, "C11: bool -> Bit -> bool does not round-trip");
